@@ -34,7 +34,7 @@ func (c *ctx) equalsCovers(rule string, short, typ string, allowed map[string]st
 func c11(c *ctx) {
 	r := c.r
 	r.Explain = "Static decision of the shared-derivation structure: (R1) proposer and replica compute header and certificate results through the same two functions; (R2) every field of the header ApplyBlock builds derives from state, the execution results, the previous block or the four preset inputs, and every header field is set; " +
-		"(R3) replica acceptance is dominated by 'no failed transaction', header-hash equality and certificate-result equality; (R4) the Equals methods of the certified structures compare every field; (R5) archive bytes: served blocks re-marshal indexed transactions, which is sound only because non-canonical encodings are rejected (shares C06.R5); (R6) transactions executed inside the proposer's throw-away oversize wrap are never recorded as block content."
+		"(R3) replica acceptance is dominated by 'no failed transaction', header-hash equality and certificate-result equality; (R4) the Equals methods of the certified structures compare every field; (R5) archive bytes: served blocks re-marshal indexed transactions, which is sound only because non-canonical encodings are rejected (shares C06.R5); (R6) transactions executed inside the proposer's throw-away oversize wrap are never recorded as block content; (R7) and their effects do not survive in the FSM caches into EndBlock (shares C07.R6)."
 	r.NotCovered = []string{"mempool policy (which valid transactions a proposer picks)", "root-chain data availability for nested chains", "that two executions of ApplyBlock give equal bytes (C03)", "governance-vote configuration equality across nodes (property's own premise)"}
 	r.Trusted = []string{"protobuf deterministic marshalling", "C03 (determinism) and C06.R5 (canonical encoding)"}
 
@@ -157,8 +157,10 @@ func c11(c *ctx) {
 				}
 				return "", false
 			},
-			target:    tgtOkReturn("ok-return"),
-			reqs:      func(string) []string { return []string{"CheckAndSetLastCertificate.ok", "ApplyBlock.ok", "@anyFailed=F", "SetHash.ok", "hashEqual#0=T"} },
+			target: tgtOkReturn("ok-return"),
+			reqs: func(string) []string {
+				return []string{"CheckAndSetLastCertificate.ok", "ApplyBlock.ok", "@anyFailed=F", "SetHash.ok", "hashEqual#0=T"}
+			},
 			minTarget: 1,
 		})
 		// the header hashed is the one ApplyBlock returned for the very block given
@@ -201,7 +203,9 @@ func c11(c *ctx) {
 		canon := false
 		for _, cs := range callsIn(checkTx, false, bytesEqual) {
 			a, b := c.p.path(cs.Common().Args[0]), c.p.path(cs.Common().Args[1])
-			isM := func(s string) bool { return strings.HasPrefix(s, "lib.Marshal(&new(Transaction)") && strings.HasSuffix(s, "#0") }
+			isM := func(s string) bool {
+				return strings.HasPrefix(s, "lib.Marshal(&new(Transaction)") && strings.HasSuffix(s, "#0")
+			}
 			if (isM(a) && b == "$1") || (isM(b) && a == "$1") {
 				canon = true
 			}
@@ -258,6 +262,10 @@ func c11(c *ctx) {
 			})
 		}
 	}
+
+	// ------------------------------------------------------------------ R7
+	c.ruleOversizeRolledBack("R7")
+
 }
 
 // the named result `r` lives in a cell because of the deferred recover: it holds the fresh results object or nil
